@@ -8,8 +8,10 @@ package main
 // writes its receiver).
 
 import (
+	"fmt"
 	"go/token"
 	"go/types"
+	"os"
 
 	"golang.org/x/tools/go/ssa"
 )
@@ -90,22 +92,64 @@ func ruleC12Methods(p *Prog, a *Anchors, r *Report) {
 				})
 				// … or the test is a predicate of the package over the receiver's type (`!reachesContextMethod(current.Type(), name)`)
 				var pred *ssa.Function
+				var cands []*ssa.Function
 				if !guarded && ctxType != nil {
-					Guarded(in, func(cond ssa.Value, pol bool) bool {
+					predGuard := Guarded(in, func(cond ssa.Value, pol bool) bool {
+						// (the name is no method of Context at all — `_, is := typeOfContext.MethodByName(name); !is` — : nothing
+						// of Context's can be found under it)
+						if ex, isEx := cond.(*ssa.Extract); isEx && !pol && ex.Index == 1 {
+							if mc, isC := ex.Tuple.(*ssa.Call); isC && mc.Common().IsInvoke() && mc.Common().Method.Name() == "MethodByName" && isLoadOfGlobal(mc.Common().Value, ctxType) {
+								return true
+							}
+						}
 						pc, ok := cond.(*ssa.Call)
-						if !ok || pol || pc.Common().StaticCallee() == nil || !p.InPkg(pc.Common().StaticCallee()) {
+						if !ok || pc.Common().StaticCallee() == nil || !p.InPkg(pc.Common().StaticCallee()) {
 							return false
+						}
+						if pol {
+							// an exception decided against Context's own method (`hidesContextMethod(T, name, ctxMethod)`: the
+							// type declares a method of that name itself): a predicate that is handed the receiver's type and
+							// the method found on the Context type
+							hasT, hasM := false, false
+							for _, arg := range pc.Common().Args {
+								if mi, isMI := arg.(*ssa.MakeInterface); isMI {
+									arg = mi.X
+								}
+								if tc, isC := arg.(*ssa.Call); isC && tc.Common().StaticCallee() != nil && p.extName(tc.Common().StaticCallee()) == "(reflect.Value).Type" && p.VN(tc.Common().Args[0]) == p.VN(recv) {
+									hasT = true
+								}
+								if ex, isEx := arg.(*ssa.Extract); isEx && ex.Index == 0 {
+									if mc, isC := ex.Tuple.(*ssa.Call); isC && mc.Common().IsInvoke() && mc.Common().Method.Name() == "MethodByName" && isLoadOfGlobal(mc.Common().Value, ctxType) {
+										hasM = true
+									}
+								}
+							}
+							return hasT && hasM
 						}
 						for _, arg := range pc.Common().Args {
 							if mi, isMI := arg.(*ssa.MakeInterface); isMI {
 								arg = mi.X
 							}
 							if tc, isC := arg.(*ssa.Call); isC && tc.Common().StaticCallee() != nil && p.extName(tc.Common().StaticCallee()) == "(reflect.Value).Type" && p.VN(tc.Common().Args[0]) == p.VN(recv) {
-								pred = pc.Common().StaticCallee()
+								cands = append(cands, pc.Common().StaticCallee())
+								return true
 							}
 						}
 						return false
 					})
+					// (the guard probes edges that do not lead here as well: of the predicates it met, the one that
+					// compares with the Context type is the test)
+					if predGuard {
+						for _, cand := range cands {
+							if c12ComparesWithGlobal(p, cand, ctxType, 0, map[*ssa.Function]bool{}) {
+								pred = cand
+								break
+							}
+						}
+					}
+					if os.Getenv("PONGOCHECK_DEBUG") != "" {
+						fmt.Fprintf(os.Stderr, "METHODS debug: predGuard=%v pred=%v\n", predGuard, pred)
+					}
 				}
 				exact, ptr, emb := guarded, false, false
 				if pred != nil {
@@ -138,11 +182,11 @@ func ruleC12Methods(p *Prog, a *Anchors, r *Report) {
 										scan(cal, d+1)
 									}
 								case *ssa.Field:
-									if n := structOf(x.X.Type()); n != nil && n.Obj().Name() == "StructField" && fieldName(x.X.Type(), x.Field) == "Anonymous" {
+									if n := structOf(x.X.Type()); n != nil && n.Obj().Name() == "StructField" && fieldName(x.X.Type(), x.Field) == "Anonymous" && fromFieldByIndex(x.X) {
 										emb = true
 									}
 								case *ssa.FieldAddr:
-									if n := structOf(x.X.Type()); n != nil && n.Obj().Name() == "StructField" && fieldName(x.X.Type(), x.Field) == "Anonymous" {
+									if n := structOf(x.X.Type()); n != nil && n.Obj().Name() == "StructField" && fieldName(x.X.Type(), x.Field) == "Anonymous" && fromFieldByIndex(x.X) {
 										emb = true
 									}
 								}
@@ -308,4 +352,70 @@ func c12HoldsFuncs(T types.Type) bool {
 	}
 	_, isSig := el.Underlying().(*types.Signature)
 	return isSig
+}
+
+// fromFieldByIndex: the reflect.StructField comes from Type.Field(i) — one of ALL the fields, as a walk over them sees
+// it — and not from a lookup by name (FieldByName finds the field called Context, not every embedded field through
+// which Context's methods are promoted: an alias `type Vars = Context` embeds under the name Vars).
+func fromFieldByIndex(v ssa.Value) bool {
+	for i := 0; i < 4; i++ {
+		switch x := v.(type) {
+		case *ssa.Call:
+			return x.Common().IsInvoke() && x.Common().Method.Name() == "Field"
+		case *ssa.UnOp:
+			if sv := stripLoad(x); sv != ssa.Value(x) {
+				v = sv
+				continue
+			}
+			if al, ok := x.X.(*ssa.Alloc); ok {
+				for _, sv := range allStoresTo(al) {
+					if fromFieldByIndex(sv) {
+						return true
+					}
+				}
+			}
+			return false
+		case *ssa.Alloc:
+			for _, sv := range allStoresTo(x) {
+				if fromFieldByIndex(sv) {
+					return true
+				}
+			}
+			return false
+		default:
+			return false
+		}
+	}
+	return false
+}
+
+// c12ComparesWithGlobal: g (or a function of the package it calls, three levels) compares something with the value of
+// the package variable glob.
+func c12ComparesWithGlobal(p *Prog, g *ssa.Function, glob *ssa.Global, d int, seen map[*ssa.Function]bool) bool {
+	if g == nil || g.Blocks == nil || seen[g] || d > 3 {
+		return false
+	}
+	seen[g] = true
+	for _, b := range g.Blocks {
+		for _, in := range b.Instrs {
+			switch x := in.(type) {
+			case *ssa.BinOp:
+				if x.Op == token.EQL || x.Op == token.NEQ {
+					for _, side := range []ssa.Value{x.X, x.Y} {
+						if mi, isMI := side.(*ssa.MakeInterface); isMI {
+							side = mi.X
+						}
+						if isLoadOfGlobal(side, glob) {
+							return true
+						}
+					}
+				}
+			case *ssa.Call:
+				if cal := x.Common().StaticCallee(); cal != nil && p.InPkg(cal) && c12ComparesWithGlobal(p, cal, glob, d+1, seen) {
+					return true
+				}
+			}
+		}
+	}
+	return false
 }
